@@ -13,7 +13,8 @@ from harness.util import call, req, fmt
 
 PID = "C01"
 LEVEL = "exploration"
-RULE = ("Hypothesis draws (n in 4..120 quick / 4..400 thorough with extra mass on 4..7, y integers |y|<=1e4 or dyadic "
+RULE = ("[seventh seeded round] a quarter of the cases are preceded by a call that hands the core the same weight array with a NaN / inf observation at a weighted cell (result ignored): the arrays of the caller must be unchanged and the real call exact; y and w must come back unmodified from every call. " +
+        "Hypothesis draws (n in 4..120 quick / 4..400 thorough with extra mass on 4..7, y integers |y|<=1e4 or dyadic "
         "floats, weight pattern from the gap classes none/isolated/runs/leading/trailing/lead_trail/all_but_k(k>=2)/"
         "alternating optionally scaled by fractional weights, log10(lambda) in [-6, 8] with extra mass at both ends). "
         "Oracle 1: ws2d's own code object run on Fractions equals Gaussian elimination on the dense normal equations "
@@ -100,7 +101,22 @@ def sub_ws2d(case, info=None):
         ya = yf.astype(case["ydtype"])       # integral series handed over in an integer dtype
     if case.get("wdtype"):
         wa = wf.astype(case["wdtype"])       # 0/1 masks handed over as bool / uint8 / int
+    keep_y, keep_w = ya.copy(), wa.copy()
+    if case.get("earlier") and ya.dtype.kind == "f":
+        # an EARLIER call that handed the core the same weight array together with a series it cannot digest (a NaN / inf at a weighted
+        # position): whatever that call returns or raises, it must leave nothing behind - the arrays of the caller least of all
+        bad = ya.copy()
+        pos = [i for i in range(n) if w[i] > 0]
+        bad[pos[int(case["earlier"][0]) % len(pos)]] = {"nan": np.nan, "inf": np.inf, "-inf": -np.inf}[case["earlier"][1]]
+        try:
+            with np.errstate(all="ignore"):
+                ws2d(bad, lam_arg, wa)
+        except Exception:  # noqa: BLE001 - refusing such a series is fine
+            pass
+        req(np.array_equal(wa, keep_w), "an earlier ws2d call with a %s observation changed the caller's weight array: %s -> %s" % (
+            case["earlier"][1], fmt(keep_w), fmt(wa)), "ws2d modified its weights")
     zf = call("ws2d", ws2d, ya, lam_arg, wa)
+    req(np.array_equal(ya, keep_y) and np.array_equal(wa, keep_w), "ws2d modified its input arrays (y or w)", "ws2d modified its input")
     req(zf.shape == (n,), "ws2d returns shape %s" % (zf.shape,), "ws2d shape")
     zf = np.asarray(zf, dtype=np.float64)
     req(bool(np.isfinite(zf).all()), "ws2d returned non-finite values for n=%d lam=%r w=%s" % (n, lam, fmt(w)), "non-finite")
@@ -186,6 +202,8 @@ def cases(draw, nmax):
     lamtype = draw(st.sampled_from(["float"] * 5 + ["int", "npint"] + (["f32"] if "ydtype" not in case and "wdtype" not in case else [])))
     if lamtype != "float":
         case["lamtype"] = lamtype
+    if draw(st.integers(0, 3)) == 0:
+        case["earlier"] = [draw(st.integers(0, 400)), draw(st.sampled_from(["nan", "nan", "inf", "-inf"]))]
     return case
 
 
@@ -201,7 +219,7 @@ def run(ctx):
             lam = float(max(1, round(lam)))
         nontrivial = any(v != 1.0 for v in w) or len(w) <= 6 or not (1e-2 <= lam <= 1e3)
         ctx.rec.case("ws2d", case, nontrivial=nontrivial, cls=["w:" + case["wcls"], "y:" + case["ycls"], "lam:" + case.get("lamtype", "float"), "ydtype:" + case.get("ydtype", "float64"), "wdtype:" + case.get("wdtype", "float64"),
-                                                               "n<=7" if len(w) <= 7 else "n>7"])
+                                                               "n<=7" if len(w) <= 7 else "n>7"] + (["after_a_faulty_call_on_the_same_weights"] if case.get("earlier") else []))
         sub_ws2d(case, info)
         k = info["kappa"]
         b = "kappa<=1e4" if k <= 1e4 else "kappa<=3e8" if k <= 3e8 else "kappa<=1e12" if k <= 1e12 else "kappa>1e12"
